@@ -35,7 +35,9 @@ GROUPS = {
      ["new", "update", "is_effective", "is_inert", "skips"])],
   "RabinKarp": [
     ("src/arch/all/rabinkarp.rs", r"impl Hash \{", "Hash", ["new", "add", "del", "roll"]),
-    ("src/arch/all/rabinkarp.rs", None, "rabinkarp", ["is_fast"])],
+    ("src/arch/all/rabinkarp.rs", None, "rabinkarp", ["is_fast"]),
+    ("src/arch/all/rabinkarp.rs", r"impl Finder \{", "Finder", ["new"]),
+    ("src/arch/all/rabinkarp.rs", r"impl FinderRev \{", "FinderRev", ["new"])],
   "Swar": [
     ("src/arch/all/memchr.rs", None, "swar", ["splat", "has_zero_byte"])],
   "ByteSet": [
@@ -89,7 +91,7 @@ ORACLES = {
 # structs whose definitions are read from the source: name -> file
 STRUCTS = {
     "Prefilter": {"PrefilterState": "src/memmem/searcher.rs"},
-    "RabinKarp": {"Hash": "src/arch/all/rabinkarp.rs", "Finder": "src/arch/all/rabinkarp.rs"},
+    "RabinKarp": {"Hash": "src/arch/all/rabinkarp.rs", "Finder": "src/arch/all/rabinkarp.rs", "FinderRev": "src/arch/all/rabinkarp.rs"},
     "Swar": {},
     "ByteSet": {"ApproximateByteSet": "src/arch/all/twoway.rs"},
     "Mask": {"SensibleMoveMask": "src/vector.rs", "NeonMoveMask": "src/vector.rs"},
@@ -556,6 +558,7 @@ class P:
             return ("ppath", path)
         if self.peek() == "(":
             self.eat("(")
+            self.accept("&"); self.accept("mut")
             inner = self.eat()
             self.eat(")")
             return ("pctor", name, inner)
@@ -893,6 +896,11 @@ class Tr:
             if p.ty == "&[u8]" and name == "get" and len(args) == 1 and args[0][0] == "rangefrom":
                 ra = self.expr(args[0][1], env, "usize")
                 return self.bind(ra, lambda pa: R(f"(slice_from_opt {p.text} {pa.text})", True, "Option<&[u8]>"))
+            if p.ty == "&[u8]" and name == "get" and len(args) == 1 and args[0][0] != "rangefrom":
+                ra = self.expr(args[0], env, "usize")
+                return self.bind(ra, lambda pa: R(f"(nth_error {p.text} (N.to_nat {pa.text}))", True, "Option<u8>"))
+            if p.ty == "&[u8]" and name == "last" and not args:
+                return R(f"(last_opt {p.text})", True, "Option<u8>")
             if p.ty == "&[u8]" and name == "split_at" and len(args) == 1:
                 ra = self.expr(args[0], env, "usize")
                 return self.bind(ra, lambda pa: R(f"(split_at_chk {p.text} {pa.text})", False, "(&[u8],&[u8])"))
@@ -1229,6 +1237,29 @@ class Tr:
                 env2[n1] = env2[n1][:-1] + [(b2[0], b1[1])]
                 env2[n2] = env2[n2][:-1] + [(b1[0], b2[1])]
                 return cont(env2)
+            pl = self.place(e[1], env) if e[0] == "mcall" else None
+            if pl:
+                root, fields = pl
+                cur = self.lookup(env, root)
+                pty = self.place_type(cur[1], fields)
+                sig = self.fnsigs.get((pty, e[2]))
+                if sig and sig["selfmode"] == "mut":
+                    ras = [self.expr(a, env, pt) for a, (_, pt) in zip(e[3], sig["params"])]
+                    if len(ras) != len(sig["params"]):
+                        raise TieBroken(f"{w}: arity of {e[2]}")
+                    rplace = self.expr(e[1], env)
+                    def fpl(pas):
+                        rv = self.fresh("rv")
+                        v = self.fresh(root)
+                        env2 = {k_: list(x) for k_, x in env.items()}
+                        env2[root] = env2[root][:-1] + [(v, cur[1])]
+                        r2 = cont(env2)
+                        call = f"(rs_{pty}_{e[2]} {rplace.text}" + "".join(" " + a.text for a in pas) + ")"
+                        upd = self.place_update(cur[0], cur[1], fields, f"(snd {rv})")
+                        return R(f"({rv} <-- {call};;\n  let {v} := {upd} in\n  {r2.mon()})", False, "ret")
+                    if not rplace.simple:
+                        raise TieBroken(f"{w}: complex receiver")
+                    return self.bind_all(ras, fpl)
             if e[0] == "mcall" and e[1] == ("path", ["self"]):
                 sig = self.fnsigs.get((self.prefix, e[2]))
                 if sig and sig["selfmode"] == "mut":
@@ -1313,8 +1344,14 @@ class Tr:
                     lhs = s[1]
                     if lhs[0] == "path" and len(lhs[1]) == 1:
                         add(lhs[1][0])
-                    elif lhs[0] == "field" and lhs[1][0] == "path" and len(lhs[1][1]) == 1:
-                        add(lhs[1][1][0])
+                    elif lhs[0] == "field":
+                        e_ = lhs
+                        while e_[0] == "field":
+                            e_ = e_[1]
+                        if e_[0] == "path" and len(e_[1]) == 1:
+                            add(e_[1][0])
+                        else:
+                            raise TieBroken(f"{self.what}: unsupported assignment target in a loop")
                     else:
                         raise TieBroken(f"{self.what}: unsupported assignment target in a loop")
                 elif s[0] in ("expr", "tail"):
@@ -1330,6 +1367,12 @@ class Tr:
                         blk(body[1])
             elif e[0] == "mcall" and e[1] == ("path", ["self"]):
                 raise TieBroken(f"{self.what}: method call on self inside a while loop")
+            elif e[0] == "mcall" and e[1][0] == "field":
+                e_ = e[1]
+                while e_[0] == "field":
+                    e_ = e_[1]
+                if e_[0] == "path" and len(e_[1]) == 1:
+                    add(e_[1][0])
         blk(ss)
         return out
 
@@ -1415,11 +1458,57 @@ class Tr:
             return R(f"(if {pc.text}\n  then {a.mon()}\n  else {b.mon()})", False, "ret")
         return self.bind(c, f)
 
+    def place(self, e, env):
+        """a place expression local.f1.f2...: (root name, [fields]) or None"""
+        fields = []
+        while e[0] == "field":
+            fields.append(e[2]); e = e[1]
+        if e[0] == "path" and len(e[1]) == 1 and self.lookup(env, e[1][0]) and fields:
+            return e[1][0], list(reversed(fields))
+        return None
+
+    def place_update(self, root_text, root_ty, fields, newval):
+        """Coq term for the root value with root.f1.f2... replaced by newval; also the type of the place"""
+        w = self.what
+        st = self.structs.get(root_ty)
+        if not st:
+            raise TieBroken(f"{w}: field of non-struct type {root_ty}")
+        fty = dict(st).get(fields[0])
+        if fty is None:
+            raise TieBroken(f"{w}: no field {fields[0]} in {root_ty}")
+        if len(fields) == 1:
+            inner = newval
+        else:
+            inner = self.place_update(f"({root_ty}_{fields[0]} {root_text})", fty, fields[1:], newval)
+        parts = [inner if fn_ == fields[0] else f"({root_ty}_{fn_} {root_text})" for fn_, _ in st]
+        return f"(mk{root_ty} {' '.join(parts)})"
+
+    def place_type(self, root_ty, fields):
+        ty = root_ty
+        for f_ in fields:
+            st = self.structs.get(ty)
+            if not st or f_ not in dict(st):
+                raise TieBroken(f"{self.what}: no field {f_} in {ty}")
+            ty = dict(st)[f_]
+        return ty
+
     def assign(self, s, env, cont):
         lhs, op, rhs = s[1], s[2], s[3]
         w = self.what
         if op != "=":
             rhs = ("bin", op[:-1], lhs, rhs)
+        pl = self.place(lhs, env)
+        if pl and len(pl[1]) >= 2:
+            root, fields = pl
+            cur = self.lookup(env, root)
+            r = self.expr(rhs, env, self.place_type(cur[1], fields))
+            def fp(p):
+                v = self.fresh(root)
+                env2 = {k_: list(x) for k_, x in env.items()}
+                env2[root] = env2[root][:-1] + [(v, cur[1])]
+                r2 = cont(env2)
+                return R(f"(let {v} := {self.place_update(cur[0], cur[1], fields, p.text)} in\n  {r2.mon()})", False, "ret")
+            return self.bind(r, fp)
         # target: local variable, self.field, self.N
         if lhs[0] == "path" and len(lhs[1]) == 1:
             name = lhs[1][0]
@@ -1468,6 +1557,12 @@ class Tr:
         names = [c[0] for c in chain]
         if names in ([], ["iter"], ["iter", "copied"]):
             return r.text, "byte"
+        if names in (["iter", "copied", "skip"], ["iter", "rev", "copied", "skip"]):
+            rs_ = self.expr(chain[-1][1][0], env, "usize")
+            if not rs_.simple:
+                raise TieBroken(f"{w}: skip argument must be a simple value")
+            base_ = r.text if "rev" not in names else f"(rev {r.text})"
+            return f"(skipn (N.to_nat {rs_.text}) {base_})", "byte"
         if names == ["iter", "enumerate", "take", "skip"]:
             rt = self.expr(chain[2][1][0], env, "usize")
             rs_ = self.expr(chain[3][1][0], env, "usize")
